@@ -12,7 +12,7 @@ MF = "MultiFit"
 
 
 def _txt(n):
-    return " ".join(ast.unparse(n).split())
+    return common.src_of(n)
 
 
 def _nested(f, name):
